@@ -1,5 +1,6 @@
 (* Case runner and spec checker (T3) for C02. *)
 From WI Require Import Lib.Base Lib.Info Lib.Strings Model.Keys.
+From WI Require Model.KeysDer.
 Open Scope N_scope.
 
 (* ---------- decoding of case inputs ---------- *)
@@ -95,6 +96,14 @@ Fixpoint run_op (depth : nat) (op : bytes) (input : arg) : arg :=
     obs_info (ssh_known_hosts_file (fx_size fx)
                 (map (fun a => (ssh_oracle_of (arg_nth 1 a), kh_line_of (arg_nth 0 a))) (arg_list i1)))
   else if bytes_eqb op (bs "ppk") then obs_info (putty_ppk fx (ppk_of i1))
+  (* the DER containers from the BYTES alone (Model/KeysDer.v): no answer of asn1.Unmarshal in the input;
+     spkider / pkcs8der: i1 is the recorded answer of parseECParameters, used under id-ecPublicKey only *)
+  else if bytes_eqb op (bs "pkcs1pubder") then obs_info (KeysDer.parse_pkcs1_public_der (arg_bytes i0))
+  else if bytes_eqb op (bs "pkcs1privder") then obs_info (KeysDer.parse_pkcs1_private_der (arg_bytes i0))
+  else if bytes_eqb op (bs "dsaprivder") then obs_info (KeysDer.parse_dsa_private_der (arg_bytes i0))
+  else if bytes_eqb op (bs "dsaparamsder") then obs_info (KeysDer.parse_dsa_parameters_der (arg_bytes i0))
+  else if bytes_eqb op (bs "spkider") then obs_info (KeysDer.parse_pkix_der (ecparams_of i1) (arg_bytes i0))
+  else if bytes_eqb op (bs "pkcs8der") then obs_info (KeysDer.parse_pkcs8_der (ecparams_of i1) (arg_bytes i0))
   else if bytes_eqb op (bs "pkcs1pub") then obs_info (parse_pkcs1_public (opt_bytes i1))
   else if bytes_eqb op (bs "pkcs1priv") then obs_info (parse_pkcs1_private (opt_bytes i1))
   else if bytes_eqb op (bs "dsapriv") then obs_info (parse_dsa_private (opt_bytes i1))
@@ -335,7 +344,9 @@ Definition is_panic_obs (a : arg) : bool := match a with AL [AZ 2%Z] => true | _
 Definition ec_oracle_panics (e : arg) : bool :=
   match e with AL [AZ 2%Z; _; _; _; inf] => is_panic_obs inf | _ => false end.
 Definition curve_matcher_panics (op : bytes) (oracle : arg) : bool :=
-  if bytes_eqb op (bs "ecparams") then ec_oracle_panics oracle
+  if bytes_eqb op (bs "ecparams") || bytes_eqb op (bs "spkider") || bytes_eqb op (bs "pkcs8der") then ec_oracle_panics oracle
+  else if bytes_eqb op (bs "pkcs1pubder") || bytes_eqb op (bs "pkcs1privder") || bytes_eqb op (bs "dsaprivder")
+          || bytes_eqb op (bs "dsaparamsder") then false
   else if bytes_eqb op (bs "sec1") then match oracle with AL [_; _; _; _; inf] => is_panic_obs inf | _ => false end
   else match oracle with AL [_; _; _; e] => ec_oracle_panics e | _ => false end.
 
